@@ -91,6 +91,40 @@ def arcref_examples():
     assert arcref.endpoint_to_centre(1, 1, 0, 5, 0, 0, 1, 2, 2) is None
 
 
+@check
+def bboxref_examples():
+    from .ref import bboxref as B
+
+    # quarter circle radius 1 about the origin from angle 0 to 90 degrees
+    assert near(B.box(("E", (0, 0), (1, 0), (0, 1), 0.0, math.pi / 2)), (0, 0, 1, 1))
+    # three quarters of it: reaches x = -1 and y = -1... no: 0 -> 270 degrees reaches x=-1, y=1 and y=-1
+    assert near(B.box(("E", (0, 0), (1, 0), (0, 1), 0.0, 1.5 * math.pi)), (-1, -1, 1, 1))
+    # ellipse rotated by 45 degrees: half width sqrt((a^2+b^2)/2)
+    c = math.cos(math.pi / 4)
+    w = math.sqrt((4 + 1) / 2.0)
+    assert near(B.box(("E", (0, 0), (2 * c, 2 * c), (-c, c), 0.0, 2 * math.pi)), (-w, -w, w, w))
+    # quadratic (0,0) (1,2) (2,0): apex at y = 1
+    assert near(B.box(("P", [(0, 0), (1, 2), (2, 0)])), (0, 0, 2, 1))
+    # cubic (0,0) (0,1) (1,1) (1,0): apex y = 0.75
+    assert near(B.box(("P", [(0, 0), (0, 1), (1, 1), (1, 0)])), (0, 0, 1, 0.75))
+    # cubic with two interior x extrema: (0,0) (4,0) (-3,0) (1,0)
+    b = B.box(("P", [(0, 0), (4, 0), (-3, 0), (1, 0)]))
+    s = B.box(("P", [(0, 0), (4, 0), (-3, 0), (1, 0)]), samples=4000)
+    assert b[0] < 0 and b[2] > 1 and near(b, s, 1e-6)
+    # the analytic box always contains the sampled one
+    import random
+    R = random.Random(5)
+    for _ in range(300):
+        cv = ("P", [(R.uniform(-9, 9), R.uniform(-9, 9)) for _ in range(R.choice([2, 3, 4]))])
+        if R.random() < 0.4:
+            cv = ("E", (R.uniform(-9, 9), R.uniform(-9, 9)), (R.uniform(-5, 5), R.uniform(-5, 5)), (R.uniform(-5, 5), R.uniform(-5, 5)), R.uniform(-7, 7), R.uniform(-12, 12))
+        a_, s_ = B.box(cv), B.box(cv, samples=600)
+        assert all(abs(x - y) < 1e-4 for x, y in zip(a_, s_)) and a_[0] <= s_[0] + 1e-12 and a_[2] >= s_[2] - 1e-12, (cv, a_, s_)
+    # affine image
+    m = (2.0, 0.0, 0.0, 3.0, 5.0, 7.0)
+    assert near(B.box(B.map_curve(("E", (0, 0), (1, 0), (0, 1), 0.0, 2 * math.pi), m)), (3, 4, 7, 10))
+
+
 def main():
     failed = 0
     for f in CHECKS:
